@@ -53,7 +53,7 @@ def generate(ctx):
     edit_tpl = open(os.path.join(HERE, "..", "C08", "input_text__buffer__edit.rs")).read().replace("/*@MOD@*/verif_c08", "verif_c03")
     gens = [C08.gen_shape(n, s, e)[0].replace("c08_batch_", "c03_batch_size_") for (n, s, e, t) in C08.SHAPES if n in SIZE_BATCHES]
     lat_tpl = open(os.path.join(HERE, "..", "C13", "analysis__stateful_tokenizer.rs")).read()
-    lat_tpl = lat_tpl.replace("/*@LATMOD@*/verif_c13_lat", "verif_c03_lat").replace("/*@LATNAME@*/c13_lattice_providers", "c03_lattice_total")
+    lat_tpl = lat_tpl.replace("/*@LATMOD@*/verif_c13_lat", "verif_c03_lat").replace("/*@LATNAME@*/c13_lattice_providers", "c03_lattice_total").replace("/*@PROVNAME@*/c13_provide_oovs_recorded", "c03_provide_oovs_recorded")
     return {"analysis__stateful_tokenizer": lat_tpl,
             "input_text__buffer__edit": edit_tpl.replace("/*@GENERATED@*/", "\n\n".join(gens)),
             "dic__lexicon__trie": tpl.replace("/*@GENERATED@*/", "\n".join(keep)).replace("/*@LEN@*/5", str(p["LEN"]))}
@@ -83,6 +83,8 @@ def harnesses(ctx):
         Harness("c03_created_shift", "analysis__created", ["CreatedWords::single", "CreatedWords::has_word", "CreatedWords::add_word"], "every i64 length >= 1",
                 kernel="C03-c no shift overflow in the created-length set", timeout_s=600, mem_gb=8),
     ]
+    hs.append(C13.prov_harness("c03_provide_oovs_recorded", "verif_c03_lat",
+                               "C03-b a word counted as created at a position is a node in the lattice (the count is what suppresses the fallback provider and the disconnection error)"))
     hs.append(C13.lat_harness("c03_lattice_total", "verif_c03_lat",
                               "C03-b every reachable position gets a node and the text a path: the fallback provider is asked again wherever nothing was created (symbolic character classes)"))
     for (n, s, e, t) in C08.SHAPES:
